@@ -50,10 +50,16 @@ Multi == {<<<<"a", <<i1>>>>, <<"o", <<<<ka, sa>>>>>>>>,
 DocsFlag == {<<<<"a", <<ovf, i1>>>>>>, <<<<"o", <<<<ka, ovf>>, <<kb, sa>>>>>>>>, <<<<"a", <<f25, ovf>>>>>>}
 DocsQuick   == Shapes(4, {n, sa}) \cup Flat \cup Multi
 DocsFull    == Shapes(5, {n, sa}) \cup Flat \cup Multi
-DocsEdit    == Shapes(3, {n, sa, i1}) \cup Multi \cup DocsFlag
+\* four members with distinct keys (Key(i) above repeats after two): key filters that select non-adjacent members
+kc == <<99>>
+kd == <<100>>
+Wide == {<<<<"o", <<<<ka, i1>>, <<kb, <<"a", <<sa>>>>>>, <<kc, sa>>, <<kd, n>>>>>>>>,
+         \* strings of different lengths incl. empty ones next to each other: replacements shorter / longer than what they replace
+         <<<<"a", <<<<"s", <<104, 101, 108, 108, 111>>>>, se, sa, <<"o", <<<<ka, se>>>>>>>>>>>>}
+DocsEdit    == Shapes(3, {n, sa, i1}) \cup Multi \cup DocsFlag \cup Wide
                  \cup {<<<<"a", <<i1, <<"o", <<<<ka, sa>>, <<kb, <<"a", <<n, t>>>>>>>>>>, sq>>>>>>,
                        <<<<"o", <<<<ka, <<"a", <<sa, i1>>>>>>, <<kb, f25>>, <<ka, n>>>>>>>>}
-DocsEditFull == Shapes(4, {n, sa, i1}) \cup Multi \cup Flat
+DocsEditFull == Shapes(4, {n, sa, i1}) \cup Multi \cup Flat \cup Wide
                  \cup {<<<<"a", <<i1, <<"o", <<<<ka, sa>>, <<kb, <<"a", <<n, t>>>>>>>>>>, sq>>>>>>,
                        <<<<"o", <<<<ka, <<"a", <<sa, i1>>>>>>, <<kb, f25>>, <<ka, n>>>>>>>>}
 
@@ -66,7 +72,7 @@ LongStr == [i \in 1..150 |-> 97 + (i % 26)]
 DocsTiny == {<<<<"a", <<sa, i1, <<"o", <<<<ka, sq>>, <<kb, n>>>>>>>>>>>>, <<<<"o", <<<<ka, <<"a", <<i1, sa>>>>>>, <<kb, f25>>>>>>>>,
              <<<<"a", <<sa, sa>>>>, <<"a", <<i1>>>>>>}
 DocsOne == {<<<<"a", <<sa, i1, <<"o", <<<<ka, sq>>, <<kb, n>>>>>>>>>>>>}
-SetOps3 == {<<"null", 0>>, <<"int", <<45, 55>>>>, <<"str", <<122, 9>>>>, <<"str", LongStr>>, <<"float", <<48, 46, 53>>>>}
+SetOps3 == {<<"null", 0>>, <<"int", <<45, 55>>>>, <<"str", <<122, 9>>>>, <<"str", LongStr>>, <<"str", <<>>>>, <<"float", <<48, 46, 53>>>>}
 SetOpsNonFinite == {<<"float", <<78, 97, 78>>>>, <<"float", <<73, 110, 102>>>>, <<"float", <<45, 73, 110, 102>>>>, <<"float", <<48, 46, 53>>>>}
 \* every byte that must be escaped, DEL, and multi-byte UTF-8, as key and as value
 ByteStrs == {<<b>> : b \in 0..127} \cup {<<195, 169>>, <<226, 130, 172>>, <<240, 159, 152, 128>>, <<92, 34, 47, 8, 12, 10, 13, 9>>, <<1, 31, 127, 34>>}
